@@ -3,6 +3,7 @@ import SpVerif.Lemmas.HilbertN
 import SpVerif.Lemmas.HilbertLink
 import SpVerif.Lemmas.HilbertOrigin
 import SpVerif.Lemmas.HilbertLast
+import SpVerif.Lemmas.HilbertOne
 /-!
 # C07 — the Hilbert curve mapping is a locality-preserving bijection
 
@@ -70,6 +71,15 @@ far end of the first axis, for every `n ≥ 1` and `p ≥ 1` -/
 theorem C07_endpoints_all_n (p n : Nat) (hp : 1 ≤ p) (hn : 1 ≤ n) :
     coordN p n 0 = List.replicate n 0 ∧ coordN p n (2 ^ (n * p) - 1) = (2 ^ p - 1) :: List.replicate (n - 1) 0 :=
   ⟨coordN_zero p n, coordN_last p n hp hn⟩
+
+/-- **one dimension** (the R-tree on intervals): the curve is the identity - hence consecutive distances are neighbouring cells and the
+order-`p+1` curve refines the order-`p` curve (`coord >>> 1` at distance `h` is the order-`p` coordinate at `h >>> 1`) -/
+theorem C07_one_dimension (p h : Nat) (hh : h < 2 ^ p) :
+    coordN p 1 h = [h] ∧ (h + 1 < 2 ^ p → coordN p 1 (h + 1) = [h + 1]) ∧
+    (∀ h', h' < 2 ^ (p + 1) → (coordN (p + 1) 1 h').map (· >>> 1) = coordN p 1 (h' >>> 1)) := by
+  refine ⟨coordN_one p h hh, fun h1 => coordN_one p (h + 1) h1, fun h' hh' => ?_⟩
+  rw [coordN_one (p + 1) h' hh', coordN_one p (h' >>> 1) (by rw [Nat.shiftRight_eq_div_pow]; rw [Nat.pow_succ] at hh'; omega)]
+  rfl
 
 /-- successive orders refine each other: dropping the last two bits of the order-`p+1`
 distance of a cell gives the order-`p` distance of its parent cell -/
